@@ -325,8 +325,21 @@ fn gen_op(prop: &str, d: &Desc, cur: &Value, avail: usize, rng: &mut Rng) -> Opt
                 _ => Op::SClear,
             })
         }
-        Desc::Flex { item, .. } => {
+        Desc::Flex { item, len: lend } => {
             let len = cur.fields().len();
+            if prop == "C17" {
+                let bb = *rng.pick(&[1usize, 3, 7, 12]);
+                return Some(Op::FPush(gen_value(item, rng, bb), rng.next()));
+            }
+            // items whose sealed offset lands exactly on / next to the largest representable offset
+            if lend.size == 1 && rng.chance(1, 4) {
+                let slot = d.flex_slot();
+                let al = d.align();
+                let target = (lend.max_usize() + al * rng.range(0, 2)).saturating_sub(slot + al);
+                if let Some(v) = value_with_extent(item, target, rng) {
+                    return Some(Op::FPush(v, rng.next()));
+                }
+            }
             let budget = *rng.pick(&[0usize, 1, 4, 12, avail / 3, avail]);
             Some(match rng.below(if prop == "C13" { 9 } else { 12 }) {
                 0..=4 => Op::FPush(gen_value(item, rng, budget.max(1)), rng.next()),
@@ -348,6 +361,29 @@ fn gen_op(prop: &str, d: &Desc, cur: &Value, avail: usize, rng: &mut Rng) -> Opt
     }
 }
 
+/// a value of shape `d` whose extent is as close as possible to `target` bytes (containers only)
+fn value_with_extent(d: &Desc, target: usize, rng: &mut Rng) -> Option<Value> {
+    match d {
+        Desc::Vec { elem, len } if elem.size() > 0 => {
+            let k = (target.saturating_sub(d.vec_data_off()) / elem.size()).min(len.max_usize());
+            Some(Value::Seq((0..k).map(|_| gen_value(elem, rng, 4)).collect()))
+        }
+        Desc::Str { len } => {
+            let k = target.saturating_sub(len.size).min(len.max_usize());
+            Some(Value::Str("z".repeat(k)))
+        }
+        Desc::Struct { fields, sized: false, .. } => {
+            let (offs, _, _) = c_struct(fields);
+            let last = fields.len() - 1;
+            let tail = value_with_extent(&fields[last], target.saturating_sub(offs[last]), rng)?;
+            let mut vals: Vec<Value> = fields[..last].iter().map(|f| gen_value(f, rng, 4)).collect();
+            vals.push(tail);
+            Some(Value::Struct(vals))
+        }
+        _ => None,
+    }
+}
+
 struct NodeSel {
     path: Vec<u32>,
     off: usize,
@@ -363,8 +399,9 @@ fn candidates(prop: &str, d: &Desc, v: &Value, dec: &Decoded, rng: &mut Rng) -> 
             None => continue,
         };
         let w = match nd {
-            Desc::Vec { .. } | Desc::Str { .. } => !matches!(prop, "C12"),
+            Desc::Vec { .. } | Desc::Str { .. } => !matches!(prop, "C12" | "C17"),
             Desc::Flex { .. } => !matches!(prop, "C11"),
+            _ if prop == "C17" => false,
             Desc::Struct { sized: false, .. } | Desc::Enum { sized: false, .. } => matches!(prop, "C18" | "C14" | "C05"),
             _ => matches!(prop, "C14") && n.path.len() <= 3 && !n.path.is_empty(),
         };
@@ -401,7 +438,17 @@ fn relevant(prop: &str, d: &Desc) -> bool {
         "C11" => has(d, &|x| matches!(x, Desc::Vec { .. } | Desc::Str { .. })),
         "C12" => has(d, &|x| matches!(x, Desc::Flex { .. })),
         "C13" => has(d, &|x| matches!(x, Desc::Vec { .. } | Desc::Str { .. } | Desc::Flex { .. })),
+        "C17" => d.is_portable() && d.align() == 1 && !d.is_sized() && has(d, &|x| matches!(x, Desc::Flex { .. })),
         _ => !d.is_sized(),
+    }
+}
+
+fn has_small_flex(d: &Desc) -> bool {
+    match d {
+        Desc::Flex { len, item } => len.size == 1 || has_small_flex(item),
+        Desc::Struct { fields, .. } => fields.last().map_or(false, has_small_flex),
+        Desc::Enum { variants, .. } => variants.iter().any(|v| v.last().map_or(false, has_small_flex)),
+        _ => false,
     }
 }
 
@@ -435,7 +482,7 @@ pub fn run(ctx: &Ctx, rep: &mut Report) {
         let a = d.align();
         // initial value and buffer
         let b0 = *rng.pick(&[2usize, 8, 24, 60]);
-        let v0 = if rng.chance(1, 3) { crate::inputs::smallest_value(d) } else { gen_value(d, &mut rng, b0) };
+        let v0 = if prop == "C17" || rng.chance(1, 3) { crate::inputs::smallest_value(d) } else { gen_value(d, &mut rng, b0) };
         let need = extent_of(d, &v0);
         let slack = match rng.below(8) {
             0 => 0,
@@ -452,6 +499,14 @@ pub fn run(ctx: &Ctx, rep: &mut Report) {
                     }
                 } else {
                     rng.range(0, 100)
+                }
+            }
+            6 => {
+                // room for an item whose sealed offset reaches the largest value a u8 offset can hold
+                if has_small_flex(d) {
+                    rng.range(260, 700)
+                } else {
+                    rng.range(0, 40)
                 }
             }
             _ => rng.range(0, 40),
@@ -688,6 +743,19 @@ pub fn run(ctx: &Ctx, rep: &mut Report) {
                                 counters.push("failed-assign-left-unchanged".into());
                             }
                         }
+                    }
+                    // C17: a portable value built by pushes has the padding-free reference image
+                    if prop == "C17" && changed_ok && !lean {
+                        let mut ser = Vec::new();
+                        serialize_portable(d, &model, &mut ser);
+                        let m = size_a.min(bytes_a.len());
+                        if m != ser.len() || !bytes_a[..m].iter().zip(ser.iter()).all(|(x, y)| y.map_or(true, |y| y == *x)) {
+                            viol.push((
+                                format!("C17|pushed-image-differs-from-serialisation|{}", kind_path(d)),
+                                format!("after {}: as_bytes()[..size()] = {:02x?} but the reference serialisation of {} has {} bytes: {:?}", opdesc, &bytes_a[..m.min(48)], model.short(), ser.len(), ser.iter().take(48).map(|x| x.map_or("??".to_string(), |b| format!("{:02x}", b))).collect::<Vec<_>>()),
+                            ));
+                        }
+                        counters.push("c17:pushed-compared".into());
                     }
                     // C05: size() is the exact extent
                     if prop == "C05" || prop == "C11" || prop == "C12" {
